@@ -17,6 +17,11 @@ and verify once with  `-c "import transactron; print(transactron.__file__)"`  th
 Run tests as   cd {d} && PYTHONPATH={d} /venv/bin/python -m pytest -q -p no:cacheprovider -n 4 --timeout=900 <test files>
 (the whole suite under test/ takes ~15-25 min with -n 4; test/lib/test_storage.py is the slowest).
 Ignore any "conda" warning lines printed by the shell.
+NEVER use `git stash`: the stash is shared by all worktrees of this repository and other people work in sibling worktrees.
+To toggle a change use  git diff > x.diff; git checkout -- .; git apply x.diff  (or git apply -R).
+The machine is shared and loaded: hypothesis DeadlineExceeded/Flaky/FailedHealthCheck failures in test_utils.py, test_stack.py,
+test_storage.py::TestContentAddressableMemory and test_input_generation.py are known load flakes that also fail on the clean
+tree (re-run such tests alone with --hypothesis-profile=ci to confirm).
 
 The library is supposed to satisfy this semantic property:
 
